@@ -179,10 +179,32 @@ def corpus():
   return frames
 
 
+def _behind_header(p):
+  """number of bytes the layer was given behind its own header, from what the parser itself recorded (None: not modelled)"""
+  if not isinstance(getattr(p, "raw", None), bytes):
+    return None
+  if isinstance(p, pkt.ethernet): return len(p.raw) - 14
+  if isinstance(p, pkt.vlan): return len(p.raw) - 4
+  if isinstance(p, pkt.ipv4): return min(p.iplen, len(p.raw)) - p.hl * 4
+  if isinstance(p, pkt.udp): return min(p.len, len(p.raw)) - 8
+  if isinstance(p, pkt.tcp): return len(p.raw) - p.off * 4
+  if isinstance(p, pkt.mpls): return len(p.raw) - 4
+  return None
+
+
 def probe(raw):
   e = pkt.ethernet(raw=raw)
   if e.parsed not in (True, False):
     return "parsed is %r" % (e.parsed,)
+  # "keeps the unparsed remainder as raw bytes": a layer whose header parsed and that was given bytes behind it hands them on
+  # (as the next packet object or as bytes), it does not drop them
+  q = e
+  while isinstance(q, pkt.packet_base):
+    if q.parsed:
+      g = _behind_header(q)
+      if g is not None and g > 0 and (q.next is None or (isinstance(q.next, bytes) and len(q.next) == 0)):
+        return "%s parsed its header, was given %d more bytes and keeps %r as the remainder" % (type(q).__name__, g, q.next)
+    q = q.next
   # walk the chain: every layer is a packet object or the raw remainder
   p = e
   depth = 0
